@@ -1,6 +1,8 @@
 package isobmff
 
 import (
+	"io"
+
 	"github.com/evanoberholster/imagemeta/meta"
 	"github.com/pkg/errors"
 	"github.com/rs/zerolog"
@@ -48,13 +50,19 @@ func (b *box) Discard(n int) (int, error) {
 // Read the bytes from underlying reader. Is limited by the
 // constrains of the box
 func (b *box) Read(p []byte) (n int, err error) {
-	if b.remain >= len(p) {
-		//fmt.Println(b.remain)
-		n, err = b.reader.br.Read(p)
-		b.adjust(n)
-		return n, err
+	if len(p) == 0 {
+		return 0, nil
 	}
-	return 0, ErrRemainLengthInsufficient
+	if b.remain <= 0 {
+		return 0, io.EOF
+	}
+	// never read past the end of the box: deliver what is left, then io.EOF
+	if len(p) > b.remain {
+		p = p[:b.remain]
+	}
+	n, err = b.reader.br.Read(p)
+	b.adjust(n)
+	return n, err
 }
 
 func (b *box) adjust(n int) {
